@@ -258,12 +258,25 @@ Proof.
   - (* OLock *) destruct ((amt <=? 0) || (dur <? 0)); [discriminate|]. injection H as <- _. assumption.
   - (* OTopUp *)
     destruct (add_tokens_to_lock cfg st owner id0 amt) as [s|] eqn:E; [|discriminate]. injection H as <- _.
-    unfold add_tokens_to_lock in E. destruct (s_locks st id0) as [l|]; [|discriminate].
-    destruct (negb (l_owner l =? owner)); [discriminate|]. destruct (amt <=? 0); [discriminate|].
-    unfold bind in E. destruct (synth_by_lock _ id0) as [found|]; [|discriminate]. injection E as <-.
-    match goal with |- s_synths (increase_sf_delegation ?c ?s ?i ?l ?a) id = _ =>
-      destruct (increase_sf_frame c s i l a) as [Fr _]; apply lproj_fields in Fr; destruct Fr as [_ [_ [_ [F4 _]]]]; rewrite F4 end.
-    destruct found; assumption.
+    apply add_tokens_frame in E. destruct E as [-> _]. assumption.
+  - (* OLockTokens *)
+    apply lock_tokens_cases in H. destruct H as [[_ H]|[_ [_ [_ [_ ->]]]]]; [|assumption].
+    apply add_tokens_frame in H. destruct H as [-> _]. assumption.
+  - (* OLockAndDelegate *)
+    unfold lock_and_delegate, bind in H. destruct (lock_tokens cfg st owner denom amt (c_unb cfg)) as [[s1 i1]|] eqn:E1; [|discriminate].
+    cbn [fst snd] in H. destruct (superfluid_delegate cfg s1 owner i1 v) as [s|] eqn:E; [|discriminate]. injection H as <- _.
+    pose proof (lock_tokens_linv cfg _ _ _ _ _ _ _ I E1) as I1.
+    assert (S1 : s_synths s1 = s_synths st).
+    { apply lock_tokens_cases in E1. destruct E1 as [[_ E1]|[_ [_ [_ [_ ->]]]]]; [|reflexivity]. apply add_tokens_frame in E1. tauto. }
+    apply (superfluid_delegate_linv cfg) in E; [|assumption].
+    destruct E as [_ [l [_ [_ [Hs0 [_ [_ [_ [_ [_ [_ [_ [_ [O _]]]]]]]]]]]]]].
+    assert (id <> i1) by (intros ->; rewrite S1 in Hs0; congruence). destruct (O id H) as [_ ->]. rewrite S1. assumption.
+  - (* OCreateAndDelegate *)
+    unfold create_and_delegate, bind in H. destruct (Z.leb_spec amt 0); [discriminate|].
+    match type of H with match ?c with _ => _ end = _ => destruct c as [s|] eqn:E; [|discriminate] end. injection H as <- _.
+    apply (superfluid_delegate_linv cfg) in E; [|apply new_lock_linv; cbn; try assumption; try lia; apply W].
+    destruct E as [_ [l [_ [_ [Hs0 [_ [_ [_ [_ [_ [_ [_ [_ [O _]]]]]]]]]]]]]]. ssimpl.
+    assert (id <> s_last st + 1) by (intros ->; congruence). destruct (O id H) as [_ ->]. assumption.
   - (* ODelegate *)
     destruct (superfluid_delegate cfg st sender id0 v) as [s|] eqn:E; [|discriminate]. injection H as <- _.
     apply (superfluid_delegate_linv cfg) in E; [|assumption].
